@@ -36,12 +36,24 @@ async function loadModules() {
       const nf = Object.fromEntries(e.number_formats.map((n) => [n, () => true]));
       const P = m.default.buildParsers({ stringFormats: sf, numberFormats: nf });
       const names = Object.keys(P).sort();
-      if (names.length > 0) MODS.push({ id: e.id, P, names, cache: new Map() });
+      if (names.length > 0) MODS.push({ id: e.id, P, names, cache: new Map(), file: e.file, sf, nf });
     } catch (err) {
       // a module that does not load is the C04 leg's business
     }
   }
   return MODS;
+}
+
+// A brand-new instance of a compiled module (new runtype objects, no history on them): the
+// jsim analogue of ssim's fresh process. Memoised state hidden in runtype instances is a history
+// channel that fresh *contexts* over the same instances cannot see.
+let PRISTINE_N = 0;
+const PRISTINE_CAP = Number(process.env.JSIM_PRISTINE_CAP || 6000);
+async function pristine(mod) {
+  PRISTINE_N++;
+  const m = await import(pathToFileURL(mod.file).href + "?pristine=" + process.pid + "_" + PRISTINE_N);
+  const P = m.default.buildParsers({ stringFormats: mod.sf, numberFormats: mod.nf });
+  return { id: mod.id, P, names: mod.names, cache: new Map(), defNames: mod.defNames, throwing: mod.throwing };
 }
 
 const TEMPLATES = ["#/$defs/{name}", "#/components/schemas/{name}", "#/definitions/{name}", "{name}"];
@@ -112,11 +124,26 @@ function genC16(mods, SPC, index) {
     if (rng.chance(1, 8)) ops.push({ op: "export" });
     else ops.push({ op: "print", parser: rng.pick(work) });
   }
-  return { module: mod.id, ctx: cfg, ops };
+  // one run in eight uses brand-new module instances for the history and for every reference
+  const pristineRun = rng.chance(1, 8);
+  return { module: mod.id, ctx: cfg, ops, pristine: pristineRun };
 }
 
-function execC16(mods, SPC, run) {
-  const mod = mods.find((m) => m.id === run.module);
+async function execC16(mods, SPC, run) {
+  const base = mods.find((m) => m.id === run.module);
+  const usePristine = !!run.pristine && base && PRISTINE_N < PRISTINE_CAP;
+  // history instance; reference instances are created per reference print in pristine mode
+  const mod = usePristine ? await pristine(base) : base;
+  const refInst = new Map();
+  const refFor = async (name) => {
+    if (!usePristine) return mod;
+    let m = refInst.get(name);
+    if (!m) {
+      m = await pristine(base);
+      refInst.set(name, m);
+    }
+    return m;
+  };
   const out = { violations: [], prints: 0, throws: 0, exports: 0, inProgressSeen: 0, defs: 0, overrides: Object.keys(run.ctx.overrides || {}).length };
   if (!mod) {
     out.skipped = "module not loadable";
@@ -126,20 +153,22 @@ function execC16(mods, SPC, run) {
   const viol = (cls, detail) => {
     if (!out.violations.some((v) => v.class === cls)) out.violations.push({ property: "C16", class: cls, detail });
   };
+  out.pristine = usePristine;
   const ctx = mkctx(SPC, mod, cfg);
   const returned = [];
   const printedOk = new Set();
-  const watch = new Set(namesOfModule(SPC, mod));
-  run.ops.forEach((op, i) => {
+  const watch = new Set(namesOfModule(SPC, base));
+  for (let i = 0; i < run.ops.length; i++) {
+    const op = run.ops[i];
     if (op.op === "export") {
       out.exports++;
       ctx.exportDefinitions();
-      return;
+      continue;
     }
     const P = mod.P[op.parser];
-    if (!P) return;
+    if (!P) continue;
     out.prints++;
-    const fresh = freshSingle(SPC, mod, cfg, op.parser);
+    const fresh = freshSingle(SPC, await refFor(op.parser), cfg, op.parser);
     let res;
     try {
       res = { ok: true, schema: P.schemaWithContext(ctx) };
@@ -164,14 +193,15 @@ function execC16(mods, SPC, run) {
         break;
       }
     }
-  });
+  }
   const D = defsOf(ctx, cfg);
   out.defs = Object.keys(D).length;
   // clause 1: same as a fresh context printing the same set once each in sorted order
-  const canonCtx = mkctx(SPC, mod, cfg);
+  const canonMod = usePristine ? await pristine(base) : mod;
+  const canonCtx = mkctx(SPC, canonMod, cfg);
   for (const n of [...printedOk].sort()) {
     try {
-      mod.P[n].schemaWithContext(canonCtx);
+      canonMod.P[n].schemaWithContext(canonCtx);
     } catch (e) {
       viol("canonical-order-print-throws", { parser: n, msg: String(e && e.message) });
     }
@@ -183,7 +213,7 @@ function execC16(mods, SPC, run) {
   }
   // clause 2: every definition equals the one a fresh context produces when one parser is printed
   for (const n of [...printedOk].sort()) {
-    const f = freshSingle(SPC, mod, cfg, n);
+    const f = freshSingle(SPC, await refFor(n), cfg, n);
     for (const k of Object.keys(f.defs)) {
       if (canon(D[k]) !== canon(f.defs[k])) {
         viol("definition-differs-from-fresh-single-print", { definition: k, printed_alone: n, in_shared_context: D[k] ?? null, fresh: f.defs[k] });
@@ -426,13 +456,13 @@ async function workerMain(prop) {
       ctxs.H = await rt("hash");
       if (!installTap(ctxs.H)) throw new Error("Hash256Writer.prototype.updateBytes not found: cannot tap the byte sink");
     }
-    process.on("message", (m) => {
+    process.on("message", async (m) => {
       if (m.done) process.exit(0);
       try {
         let result;
         if (prop === "C16") {
           const run = m.run ?? genC16(ctxs.mods, ctxs.SPC, m.index);
-          result = execC16(ctxs.mods, ctxs.SPC, run);
+          result = await execC16(ctxs.mods, ctxs.SPC, run);
           if (result.violations.length || m.index < 3) result.run = run;
         } else {
           const run = m.run ?? genC13(m.index);
@@ -463,13 +493,13 @@ function corpusProject(id) {
 }
 
 async function minimize(prop, run, cls, ctxs) {
-  const exec = (r) => (prop === "C16" ? execC16(ctxs.mods, ctxs.SPC, r) : execC13(ctxs.H, r));
-  const still = (r) => exec(r).violations.some((v) => v.class === cls);
+  const exec = async (r) => (prop === "C16" ? await execC16(ctxs.mods, ctxs.SPC, r) : execC13(ctxs.H, r));
+  const still = async (r) => (await exec(r)).violations.some((v) => v.class === cls);
   let best = run;
   let i = 0;
   while (i < best.ops.length) {
     const c = { ...best, ops: best.ops.filter((_, j) => j !== i) };
-    if (c.ops.length && still(c)) best = c;
+    if (c.ops.length && (await still(c))) best = c;
     else i++;
   }
   if (prop === "C16") {
@@ -477,23 +507,23 @@ async function minimize(prop, run, cls, ctxs) {
       const ov = { ...best.ctx.overrides };
       delete ov[k];
       const c = { ...best, ctx: { ...best.ctx, overrides: ov } };
-      if (still(c)) best = c;
+      if (await still(c)) best = c;
     }
     for (const t of TEMPLATES) {
       const c = { ...best, ctx: { ...best.ctx, refPathTemplate: t, definitionContainerKey: null } };
-      if (still(c)) {
+      if (await still(c)) {
         best = c;
         break;
       }
     }
   } else {
     // collapse to one ASCII string with the same total length, then peel off whole blocks
-    const total = exec(best).bytes;
+    const total = (await exec(best)).bytes;
     if (total >= 5) {
       let L = total - 5;
       const mk = (n) => ({ ...best, ops: [{ op: "string", v: "a".repeat(n) }, { op: "digest" }] });
-      if (still(mk(L))) {
-        while (L >= 64 && still(mk(L - 64))) L -= 64;
+      if (await still(mk(L))) {
+        while (L >= 64 && (await still(mk(L - 64)))) L -= 64;
         best = mk(L);
       }
     }
@@ -503,7 +533,7 @@ async function minimize(prop, run, cls, ctxs) {
       if (typeof op.v === "string" && op.v.length > 1 && (op.op === "string" || op.op === "tag")) {
         for (const cut of [0, 1, Math.floor(op.v.length / 2)]) {
           const c = { ...best, ops: best.ops.map((o, k) => (k === j ? { ...o, v: o.v.slice(0, cut) } : o)) };
-          if (still(c)) {
+          if (await still(c)) {
             best = c;
             break;
           }
@@ -540,7 +570,7 @@ async function main() {
       ctxs.H = await rt("hash");
       installTap(ctxs.H);
     }
-    const out = prop === "C16" ? execC16(ctxs.mods, ctxs.SPC, run) : execC13(ctxs.H, run);
+    const out = prop === "C16" ? await execC16(ctxs.mods, ctxs.SPC, run) : execC13(ctxs.H, run);
     const hit = out.violations.find((v) => !run.violation_class || v.class === run.violation_class);
     if (hit) {
       console.log(`VIOLATION property=${prop} replay=${a1} class=${hit.class}`);
@@ -570,6 +600,7 @@ async function main() {
       agg.refs += r.refs || 0;
       agg.defs += r.defs || 0;
       if (r.overrides) agg.overrides++;
+      if (r.pristine) agg.pristine = (agg.pristine || 0) + 1;
       if (r.crossedBlock) agg.crossed++;
       if (r.extraPadBlock) agg.extraPad++;
       if (prop === "C16") {
@@ -618,7 +649,7 @@ async function main() {
     }
     let min = run;
     if (index >= 0) min = await minimize(prop, run, cls, ctxs);
-    const final = prop === "C16" ? execC16(ctxs.mods, ctxs.SPC, min) : index >= 0 ? execC13(ctxs.H, min) : { violations: [v] };
+    const final = prop === "C16" ? await execC16(ctxs.mods, ctxs.SPC, min) : index >= 0 ? execC13(ctxs.H, min) : { violations: [v] };
     const fv = final.violations.find((x) => x.class === cls) ?? v;
     const file = { engine: "jsim", property: prop, violation_class: cls, root_seed: ROOT, run_index: index, ...min, observed: fv.detail };
     if (prop === "C16") file.module_project = corpusProject(min.module) ?? null;
@@ -650,6 +681,7 @@ async function main() {
             prints_that_threw_midway: agg.throws,
             export_calls: agg.exports,
             runs_with_overrides: agg.overrides,
+            runs_on_brand_new_module_instances: agg.pristine || 0,
             refs_resolved: agg.refs,
             definitions_compared: agg.defs,
             distinct_sequences: agg.sigs.size,
